@@ -176,79 +176,111 @@ fn pdf_bytes(m: &ModelSpec) -> Vec<u8> {
 }
 
 pub fn write(v: &VoiceSpec) -> Vec<u8> {
-    let mut data: Vec<u8> = Vec::new();
-    let mut pos = String::new();
-    let put = |data: &mut Vec<u8>, b: Vec<u8>| -> String {
-        let a = data.len();
-        data.extend(b);
-        format!("{}-{}", a, data.len() - 1)
+    write_layout(v, 0)
+}
+
+/// The same voice in another legal arrangement of the container. `layout` bits: 1 = the key lines of every header
+/// section in reverse order, 2 = the data blocks stored in reverse order, 4 = three filler bytes before every data
+/// block (the [POSITION] ranges say where everything is; nothing requires the blocks to be ordered or contiguous).
+pub fn write_layout(v: &VoiceSpec, layout: u8) -> Vec<u8> {
+    // blocks in the customary order, and for each [POSITION] key the blocks it lists
+    let mut blocks: Vec<Vec<u8>> = Vec::new();
+    let mut keys: Vec<(String, Vec<usize>)> = Vec::new();
+    let mut put = |keys: &mut Vec<(String, Vec<usize>)>, key: String, bs: Vec<Vec<u8>>| {
+        let mut idx = Vec::new();
+        for b in bs {
+            idx.push(blocks.len());
+            blocks.push(b);
+        }
+        keys.push((key, idx));
     };
-    pos += &format!("DURATION_PDF:{}\n", put(&mut data, pdf_bytes(&v.dur)));
-    pos += &format!("DURATION_TREE:{}\n", put(&mut data, tree_text(&v.dur)));
-    let (mut wins, mut spdf, mut stree, mut gpdf, mut gtree) =
-        (String::new(), String::new(), String::new(), String::new(), String::new());
+    put(&mut keys, "DURATION_PDF".into(), vec![pdf_bytes(&v.dur)]);
+    put(&mut keys, "DURATION_TREE".into(), vec![tree_text(&v.dur)]);
     for s in &v.streams {
-        let mut rs = Vec::new();
-        for w in &s.windows {
-            let row = format!(
-                "{} {}\n",
-                w.len(),
-                w.iter().map(|c| format!("{:?}", c)).collect::<Vec<_>>().join(" ")
-            );
-            rs.push(put(&mut data, row.into_bytes()));
-        }
-        wins += &format!("STREAM_WIN[{}]:{}\n", s.name, rs.join(","));
+        let rows: Vec<Vec<u8>> = s.windows.iter().map(|w| format!("{} {}\n", w.len(), w.iter().map(|c| format!("{:?}", c)).collect::<Vec<_>>().join(" ")).into_bytes()).collect();
+        put(&mut keys, format!("STREAM_WIN[{}]", s.name), rows);
     }
     for s in &v.streams {
-        spdf += &format!("STREAM_PDF[{}]:{}\n", s.name, put(&mut data, pdf_bytes(&s.model)));
+        put(&mut keys, format!("STREAM_PDF[{}]", s.name), vec![pdf_bytes(&s.model)]);
     }
     for s in &v.streams {
-        stree += &format!("STREAM_TREE[{}]:{}\n", s.name, put(&mut data, tree_text(&s.model)));
+        put(&mut keys, format!("STREAM_TREE[{}]", s.name), vec![tree_text(&s.model)]);
     }
     for s in &v.streams {
         if let Some(g) = &s.gv {
-            gpdf += &format!("GV_PDF[{}]:{}\n", s.name, put(&mut data, pdf_bytes(g)));
+            put(&mut keys, format!("GV_PDF[{}]", s.name), vec![pdf_bytes(g)]);
         }
     }
     for s in &v.streams {
         if let Some(g) = &s.gv {
-            gtree += &format!("GV_TREE[{}]:{}\n", s.name, put(&mut data, tree_text(g)));
+            put(&mut keys, format!("GV_TREE[{}]", s.name), vec![tree_text(g)]);
         }
+    }
+    let mut order: Vec<usize> = (0..blocks.len()).collect();
+    if layout & 2 != 0 {
+        order.reverse();
+    }
+    let mut data: Vec<u8> = Vec::new();
+    let mut range = vec![String::new(); blocks.len()];
+    for bi in order {
+        if layout & 4 != 0 {
+            data.extend(b"###");
+        }
+        let a = data.len();
+        data.extend(&blocks[bi]);
+        range[bi] = format!("{}-{}", a, data.len() - 1);
     }
     let names: Vec<&str> = v.streams.iter().map(|s| s.name.as_str()).collect();
+    let mut global: Vec<String> = vec![
+        "HTS_VOICE_VERSION:1.0".into(),
+        format!("SAMPLING_FREQUENCY:{}", v.rate),
+        format!("FRAME_PERIOD:{}", v.fperiod),
+        format!("NUM_STATES:{}", v.nstate),
+        format!("NUM_STREAMS:{}", v.streams.len()),
+        format!("STREAM_TYPE:{}", names.join(",")),
+        "FULLCONTEXT_FORMAT:HTS_TTS_JPN".into(),
+        "FULLCONTEXT_VERSION:1.0".into(),
+        format!("GV_OFF_CONTEXT:{}", v.gv_off.iter().map(|p| format!("\"{}\"", p)).collect::<Vec<_>>().join(",")),
+        "COMMENT:".into(),
+    ];
+    let mut stream: Vec<String> = Vec::new();
+    for s in &v.streams {
+        stream.push(format!("VECTOR_LENGTH[{}]:{}", s.name, s.vlen));
+    }
+    for s in &v.streams {
+        stream.push(format!("IS_MSD[{}]:{}", s.name, s.is_msd as u8));
+    }
+    for s in &v.streams {
+        stream.push(format!("NUM_WINDOWS[{}]:{}", s.name, s.windows.len()));
+    }
+    for s in &v.streams {
+        stream.push(format!("USE_GV[{}]:{}", s.name, s.use_gv as u8));
+    }
+    for s in &v.streams {
+        stream.push(format!("OPTION[{}]:{}", s.name, s.options.join(",")));
+    }
+    let mut position: Vec<String> = keys.iter().map(|(k, idx)| format!("{}:{}", k, idx.iter().map(|i| range[*i].clone()).collect::<Vec<_>>().join(","))).collect();
+    if layout & 1 != 0 {
+        global.reverse();
+        stream.reverse();
+        position.reverse();
+    }
     let mut h = String::new();
-    h += &format!(
-        "[GLOBAL]\nHTS_VOICE_VERSION:1.0\nSAMPLING_FREQUENCY:{}\nFRAME_PERIOD:{}\nNUM_STATES:{}\nNUM_STREAMS:{}\nSTREAM_TYPE:{}\nFULLCONTEXT_FORMAT:HTS_TTS_JPN\nFULLCONTEXT_VERSION:1.0\nGV_OFF_CONTEXT:{}\nCOMMENT:\n",
-        v.rate,
-        v.fperiod,
-        v.nstate,
-        v.streams.len(),
-        names.join(","),
-        v.gv_off.iter().map(|p| format!("\"{}\"", p)).collect::<Vec<_>>().join(",")
-    );
+    h += "[GLOBAL]\n";
+    for l in global {
+        h += &l;
+        h += "\n";
+    }
     h += "[STREAM]\n";
-    for s in &v.streams {
-        h += &format!("VECTOR_LENGTH[{}]:{}\n", s.name, s.vlen);
-    }
-    for s in &v.streams {
-        h += &format!("IS_MSD[{}]:{}\n", s.name, s.is_msd as u8);
-    }
-    for s in &v.streams {
-        h += &format!("NUM_WINDOWS[{}]:{}\n", s.name, s.windows.len());
-    }
-    for s in &v.streams {
-        h += &format!("USE_GV[{}]:{}\n", s.name, s.use_gv as u8);
-    }
-    for s in &v.streams {
-        h += &format!("OPTION[{}]:{}\n", s.name, s.options.join(","));
+    for l in stream {
+        h += &l;
+        h += "\n";
     }
     h += "[POSITION]\n";
-    h += &pos;
-    h += &wins;
-    h += &spdf;
-    h += &stree;
-    h += &gpdf;
-    h += &gtree;
+    for l in position {
+        h += &l;
+        h += "\n";
+    }
     h += "[DATA]\n";
     let mut out = h.into_bytes();
     out.extend(data);
